@@ -68,9 +68,9 @@ let rec build (e:elem) (buf:Buffer.t) : z list =
     let kb = List.map (fun k -> build k sub) kids in
     let total = List.fold_left (fun a b -> a + 4 + List.length b) 16 kb in
     let mems = List.map (fun b -> b @ z4) kb in
-    let (r, b) = get (bundle (fill (total + 4)) tt mems) in
+    let (r, b) = get (bundle (fill total) tt mems) in
     let ri = zi r in
-    let m = b in
+    let m = b @ z4 in
     let cnt = zi (get (bundle_elements m r)) in
     let es = List.map (fun i ->
         Printf.sprintf "%s:%s" (zs (get (bundle_fetch m (z_of_int i)))) (zs (get (bundle_size m (z_of_int i))))) (range 0 cnt) in
@@ -98,7 +98,7 @@ let () = each_line (fun line ->
       let need = get (size_null a t args) in
       let (r, bo) = get (amessage (Some (fill (int_of_string cap))) a t args) in
       let b = match bo with Some b -> b | None -> [] in
-      Printf.sprintf "p=%s r=%s b=%s" (zs need) (zs r) (hex_of_bytes b)
+      Printf.sprintf "p=%s r=%s b=%s V=same A=same" (zs need) (zs r) (hex_of_bytes b)
     | "bcap" :: cap :: tt :: es :: _ ->
       let mems = if es = "-" then [] else List.map (fun h -> bytes_of_hex h @ z4) (String.split_on_char ',' es) in
       let (r, b) = get (bundle (fill (int_of_string cap)) (z_of_string tt) mems) in
@@ -132,6 +132,13 @@ let () = each_line (fun line ->
         let (r, b) = get (subtree_serialize (fill cap) msgs) in
         Printf.sprintf "r=%s b=%s" (zs r) (hex_of_bytes b) end
     | "pm" :: h :: _ -> Printf.sprintf "p=%d" (if get (bundle_p (bytes_of_hex h)) then 1 else 0)
+    | "ring" :: h :: cut :: _ ->
+      let m = bytes_of_hex h in
+      let n = List.length m in
+      let cut = min (int_of_string cut) n in
+      let s0 = List.filteri (fun i _ -> i < cut) m and s1 = List.filteri (fun i _ -> i >= cut) m in
+      let l = get (message_ring_length { d0 = s0; n0 = z_of_int cut; d1 = s1; n1 = z_of_int (n - cut) }) in
+      Printf.sprintf "RL=%s" (zs l)
     | "raw" :: h :: _ ->
       let m = bytes_of_hex h in
       let n = z_of_int (List.length m) in
